@@ -330,7 +330,7 @@ Section Walk.
   Definition vnav_index (v : vnav) (i : nat) : res vnav :=
     match vn_loc v with
     | WArr st _ isz cnt _ sch =>
-        if refused index_refuse i cnt then Err IndexError
+        if refused_low index_refuse_low i || refused index_refuse i cnt then Err IndexError
         else match vfrom_instance sch (eval (env_index st isz cnt i) index_start) with
              | Ok (l, an) => Ok (mkvnav l an)
              | Err e => Err e
@@ -338,16 +338,19 @@ Section Walk.
     | _ => Err TypeError
     end.
 
-  (* NDNav.index as written takes any Python int: the only test is  index <index_refuse> item_count  (>= in the source
-     as it is).  The start handed to the fresh LocationMaker, as an integer. *)
-  Definition index_start_z (v : vnav) (z : Z) : res Z :=
+  (* NDNav.index takes any Python int.  The tests that refuse it, as Gen/LayoutParams.v reads them in the source:
+       index <lo: OP constant>  or  index <hi: OP> item_count        (now: index < 0 or index >= item_count)
+     and the start handed to the fresh LocationMaker, as an integer.  [index_start_with] takes the two tests as
+     arguments so that a theorem can also speak about the source before fix 08e8809 (no test against 0). *)
+  Definition index_start_with (lo : option (cmp * nat)) (hi : option cmp) (v : vnav) (z : Z) : res Z :=
     match vn_loc v with
     | WArr st _ isz cnt _ _ =>
-        if refusedZ index_refuse z (Z.of_nat cnt) then Err IndexError
+        if refused_lowZ lo z || refusedZ hi z (Z.of_nat cnt) then Err IndexError
         else Ok (evalZ (fun x => match x with VStart => evalZ (env_indexZ st isz cnt z) index_start | _ => 0%Z end)
                    from_instance_start)
     | _ => Err TypeError
     end.
+  Definition index_start_z (v : vnav) (z : Z) : res Z := index_start_with index_refuse_low index_refuse v z.
 
   Definition vnav_step (v : vnav) (s : wstep) : res vnav :=
     match s with SKey k => vnav_name v k | SIdx i => vnav_index v i end.
